@@ -8,10 +8,21 @@ def _case_key(case, kind):
     return kind
 
 CFG = {
-   "ready": False,
+   "ready": True,
    "case_key": _case_key,
-   "level_text": "TODO",
-   "level_note": "TODO",
-   "technique": "TODO",
-   "notes": [],
+   "level_text": "Partial proof + full-coverage correspondence. Proved in Coq over faithful models of mux/mux.go and mux/demux.go: the simple layout round trip for every muxer state (well-formed by an independent container grammar, demuxes to exactly the bitstream put in: C14_simple_layout_roundtrip_partial), the chunk write/read round trip with padding for every payload, chunk/ANMF size formulas = bytes written, VP8X flag derivation, still-vs-animated and simple-vs-extended choice; the full statement is refuted for the pinned muxer by five kernel-evaluated witnesses (the defects fixed by bc01570 and 2c1f6ba) and for the current muxer by the remaining known finding (explicit canvas != picture on a still image). The extended/animated round trip is not proved in general: it is checked on every run on 2 500 generated call histories by the extracted models (Go Assemble bytes = model bytes exactly; Go demuxer = model demuxer; round trip = specification view + RiffGrammar.wf) and by a Go-only evaluation with an independent shadow state and RIFF walker, GetFeatures/Decode agreement, and rejection checks.",
+   "level_note": "Trusted: Coq kernel, extraction (ExtrOcamlBasic), OCaml glue, Go harness, translator. The full round-trip theorem for VP8X / animated files (C14_full_statement) is a Definition, not a theorem. container.Parser is compared only Go-side through GetFeatures/Decode.",
+   "technique": "Rocq models of muxer state machine + demuxer with explicit Panic; declarative RIFF grammar from the container spec; round-trip lemmas and simple-layout theorem; _refuted witnesses by vm_compute; extraction-based correspondence over random call histories",
+   "notes": [
+     "theorems (full): C14_chunk_write_read_roundtrip, C14_chunk_total_size_correct, C14_anmf_size_correct, C14_flags_derivation, C14_still_vs_animated_choice, C14_simple_layout_iff, C14_current_handles_the_pinned_witnesses, C14_limits_match_source; (partial) C14_simple_layout_roundtrip_partial; (refuted) C14_pinned_still_alpha_refuted, C14_pinned_negative_offset_refuted, C14_pinned_big_offset_refuted, C14_pinned_still_offset_refuted, C14_current_still_canvas_refuted",
+     "view decisions: offsets rounded down to even; for a still picture blend/dispose/loop/background (which exist only in ANMF/ANIM) are not part of the view; empty-but-non-nil metadata round-trips as an empty chunk (checked); AddChunk with an id other than ICCP/EXIF/XMP returns nil and stores nothing (modelled; not counted as metadata)",
+     "generator: clean animated (1..5 frames, even/odd offsets, explicit/derived canvas, duration clamps), clean still, boundary histories (negative / >= 2^24 / >= 2^25 offsets, still+offset, still+canvas, canvas limits, frame outside canvas), wild histories (<= 12 calls incl. garbage frames, nil/empty blobs, extreme ints) over a pool of >= 24 real bitstreams (lossy, lossless, +alpha, ALPH-prefixed; both parities of bitstream and alpha length)",
+   ],
+   "partial": [
+     "C14_full_statement (round trip for every accepted history, VP8X and animated layouts included) is not proved; proved: simple layout + the lemmas the general proof needs (chunk round trip, size formulas, flags). The gap is covered by the per-run correspondence and direct evaluation only.",
+     "container.Parser agreement is evaluated Go-side (GetFeatures/Decode), not modelled here (other builder's Parser model).",
+     "known finding still-canvas (SetCanvasSize != picture size on a still image) makes the full statement false for the current code (C14_current_still_canvas_refuted); kept because mux_test.go pins the acceptance.",
+   ],
+   "trusted_base": ["modelled, not verified: mux/mux.go (all setters, AddFrame, isAnimated, needsVP8X, hasAlphaChunk, validate, canvasSize, frameDimensions, splitAlphaAndBitstream, hasAlpha, detectBitstreamType, chunkTotalSize, frameSubChunksSize, writeDataChunk, putLE24, assembleSimple, assembleExtended, writeANMFChunk), mux/demux.go, mux/chunk.go"],
+   "assumptions": ["Go int is 64-bit two's complement (wrap64); every blob shorter than 2^31 bytes"],
  }
